@@ -549,6 +549,27 @@ func runEntry(w *hc.W, e common.Entry) {
 			}
 		}
 	}
+	// a token delimits itself when nothing of it is left pending; a lone ESC does so too when
+	// what follows is a report that cannot carry the Alt modifier (focus, mouse, paste bracket,
+	// clipboard reply): "a recognised sequence never swallows or corrupts bytes that precede
+	// or follow it" - the Esc is a key press of its own and must not leak onto a later key
+	isReport := func(i int) bool {
+		if len(sing[i].evs) == 0 || !sing[i].selfDone {
+			return false
+		}
+		for _, e := range sing[i].evs {
+			if e.Kind == "key" {
+				return false
+			}
+		}
+		return true
+	}
+	delimited := func(ix []int, k int) bool {
+		if k == len(ix)-1 || sing[ix[k]].selfDone {
+			return true
+		}
+		return toks[ix[k]].name == "lone-esc" && isReport(ix[k+1])
+	}
 	ti := 0
 	maxTok := 3
 	for a := range toks {
@@ -578,7 +599,7 @@ func runEntry(w *hc.W, e common.Entry) {
 				for k, ix := range seqIdx {
 					s = append(s, toks[ix].b...)
 					names = append(names, toks[ix].name)
-					if k < len(seqIdx)-1 && !sing[ix].selfDone {
+					if !delimited(seqIdx, k) {
 						comp = false
 					}
 					want = append(want, sing[ix].evs...)
@@ -595,7 +616,7 @@ func runEntry(w *hc.W, e common.Entry) {
 							var s []byte
 							var want []ri.Ev
 							for k, i := range ix {
-								if k < len(ix)-1 && !sing[i].selfDone {
+								if !delimited(ix, k) {
 									return false
 								}
 								s = append(s, toks[i].b...)
